@@ -10,17 +10,25 @@ SPECDIR = os.path.join(vlib.SPEC, 'ingest')
 
 
 def model_check(tier):
-    cfg = 'MC_Batcher_quick.cfg' if tier == 'quick' else 'MC_Batcher_thorough.cfg'
-    res = vlib.tlc(SPECDIR, 'MC_Batcher.tla', cfg, timeout=600 if tier == 'quick' else 3000)
-    try:
-        if res['violated']:
-            raise vlib.Infra('TLC reports a violated property on the specification itself (%s); the spec is the oracle, '
-                             'so this is a specification problem, not a verdict:\n%s' % (res['violated'], res['out'][-2500:]))
-        if not res.get('finished') or 'distinct' not in res:
-            raise vlib.Infra('TLC did not finish:\n' + res['out'][-2000:])
-        return {'states': res['distinct'], 'transitions': res['generated'], 'cfg': cfg, 'wall_s': round(res['wall'], 1)}
-    finally:
-        vlib.tlc_cleanup(res)
+    """quick: 2 requests x 2 services x 1 worker. thorough: additionally 3 requests x 1 service x 2 workers (t1), 2 requests x 2 services x
+    2 workers with 1 attempt (t2, ~7.8M states), 3 requests x 1 worker x 3 attempts x 2 rows (t3)."""
+    cfgs = ['MC_Batcher_quick.cfg'] if tier == 'quick' else ['MC_Batcher_quick.cfg', 'MC_Batcher_t1.cfg', 'MC_Batcher_t2.cfg', 'MC_Batcher_t3.cfg']
+    total = {'states': 0, 'transitions': 0, 'cfg': '+'.join(cfgs), 'wall_s': 0, 'per_cfg': []}
+    for cfg in cfgs:
+        res = vlib.tlc(SPECDIR, 'MC_Batcher.tla', cfg, timeout=600 if tier == 'quick' else 3000)
+        try:
+            if res['violated']:
+                raise vlib.Infra('TLC reports a violated property on the specification itself (%s, %s); the spec is the oracle, '
+                                 'so this is a specification problem, not a verdict:\n%s' % (cfg, res['violated'], res['out'][-2500:]))
+            if not res.get('finished') or 'distinct' not in res:
+                raise vlib.Infra('TLC did not finish (%s):\n%s' % (cfg, res['out'][-2000:]))
+            total['states'] += res['distinct']
+            total['transitions'] += res['generated']
+            total['wall_s'] = round(total['wall_s'] + res['wall'], 1)
+            total['per_cfg'].append({'cfg': cfg, 'states': res['distinct'], 'transitions': res['generated']})
+        finally:
+            vlib.tlc_cleanup(res)
+    return total
 
 
 def liveness(tier):
